@@ -11,3 +11,15 @@ pub use node_storage::*;
 pub(crate) use resource_node::*;
 pub(crate) use stat_prepare_slot::*;
 pub(crate) use stat_slot::*;
+
+/// Verification hook (only with `--cfg sentinel_verif`): re-export the crate-private
+/// statistic building blocks so that arbitrary window geometries can be exercised.
+#[cfg(sentinel_verif)]
+pub mod verif_export {
+    pub use super::base::verif_export::*;
+    pub use super::resource_node::ResourceNode;
+    pub use super::stat_prepare_slot::{
+        default_resource_node_prepare_slot, ResourceNodePrepareSlot,
+    };
+    pub use super::stat_slot::{default_resource_stat_slot, ResourceNodeStatSlot};
+}
